@@ -1,5 +1,7 @@
-(* C16 — proofs about the v2 port model V2.v for the public port (allow_dup = true):
-   state invariant, per-subscription refinement to Sub1 with cap = None, theorems. *)
+(* C16 — proofs about the v2 port model V2.v, for both values of the
+   allow_duplicate_subscription flag `ad` (the public port uses true): state invariant,
+   per-subscription refinement to Sub1 with cap = None, theorems. *)
+From Coq Require Import Permutation.
 From Coq Require Import List NArith Bool Arith Lia.
 From RV Require Import OutPort.Spec OutPort.SpecProofs OutPort.V2.
 Import ListNotations.
@@ -37,10 +39,11 @@ Proof. intros. unfold updf. rewrite H. reflexivity. Qed.
 Section P.
   Variable C : Type.
   Variable cv : C -> N -> option N.
+  Variable ad : bool.
 
   Notation state := (state C).
-  Notation step := (step C cv true).
-  Notation run := (run C cv true).
+  Notation step := (step C cv ad).
+  Notation run := (run C cv ad).
   Notation label := (label C).
   Notation cmd := (cmd C).
   Notation entry := (entry C).
@@ -272,6 +275,53 @@ Section P.
   Lemma skipn_all_nil : forall A n (l : list A), length l <= n -> skipn n l = [].
   Proof. intros. apply skipn_all2. assumption. Qed.
 
+  Lemma replace_first_spec : forall e (l l' : list entry) r, replace_first C e l = Some (l', r) ->
+    exists l1 x l2, l = l1 ++ x :: l2 /\ l' = l1 ++ e :: l2 /\ r = e_sid C x.
+  Proof.
+    intros e. induction l as [|y t IH]; intros l' r H; cbn in H; [discriminate|].
+    destruct (N.eqb (e_actor C y) (e_actor C e)).
+    - inversion H; subst. exists [], y, t. repeat split; reflexivity.
+    - destruct (replace_first C e t) as [[t' r']|] eqn:E; [|discriminate]. inversion H; subst.
+      destruct (IH _ _ eq_refl) as (l1 & x & l2 & -> & -> & ->).
+      exists (y :: l1), x, l2. repeat split; reflexivity.
+  Qed.
+
+  Lemma winv_apply_append : forall (st : state) b s a c, WInv st ->
+    dp C st = DApply b -> nth_error (batch C st) b = Some (SetSub s a c) ->
+    WInv (mkSt C (queue C st) (batch C st) (DSeg (S b)) (subscribers C st ++ [mkEntry C s a c])
+               (actors C st) (decl C st)).
+  Proof.
+    intros st b s a c I Dp Nb.
+    pose proof (skipn_nth_cons2 _ _ _ _ Nb) as Hr.
+    destruct I as [Ind Ie Ic It]. unfold ids, batch_rest in *. rewrite Dp in *. rewrite Hr in *.
+    constructor; unfold ids, batch_rest; cbn; auto.
+    + unfold sids. rewrite map_app. cbn. rewrite <- app_assoc. cbn. exact Ind.
+    + intros e Hin. apply in_app_or in Hin. destruct Hin as [Hin|[<-|[]]]; [auto|].
+      cbn. apply Ic. left. reflexivity.
+    + intros s' a' c' Hin. apply Ic. right. exact Hin.
+  Qed.
+
+  Lemma winv_apply_replace : forall (st : state) b s a c l1 x l2, WInv st ->
+    dp C st = DApply b -> nth_error (batch C st) b = Some (SetSub s a c) ->
+    subscribers C st = l1 ++ x :: l2 ->
+    WInv (mkSt C (queue C st) (batch C st) (DSeg (S b)) (l1 ++ mkEntry C s a c :: l2)
+               (actors C st) (decl C st)).
+  Proof.
+    intros st b s a c l1 x l2 I Dp Nb Hs.
+    pose proof (skipn_nth_cons2 _ _ _ _ Nb) as Hr.
+    destruct I as [Ind Ie Ic It]. unfold ids, batch_rest in *. rewrite Dp in *. rewrite Hr, Hs in *.
+    constructor; unfold ids, batch_rest; cbn; auto.
+    + unfold sids in *. rewrite map_app in *. cbn in *. rewrite <- app_assoc in *. cbn in *.
+      apply NoDup_remove_1 in Ind.
+      eapply Permutation_NoDup; [|exact Ind].
+      apply Permutation_app_head. apply Permutation_sym. apply Permutation_middle.
+    + intros e Hin. apply in_app_or in Hin. destruct Hin as [Hin|[<-|Hin]].
+      * apply Ie. apply in_or_app. left. exact Hin.
+      * cbn. apply Ic. left. reflexivity.
+      * apply Ie. apply in_or_app. right. right. exact Hin.
+    + intros s' a' c' Hin. apply Ic. right. exact Hin.
+  Qed.
+
   Lemma winv_step : forall (st st' : state) l, WInv st -> step st l = Some st' -> WInv st'.
   Proof.
     intros st st' l I H. destruct l; cbn [V2.step] in H.
@@ -361,14 +411,15 @@ Section P.
     - (* LApply *)
       destruct (dp C st) as [|a|a b si|a b si mi|b] eqn:Dp; try discriminate.
       destruct (nth_error (batch C st) b) as [[m|s a c]|] eqn:Nb; try discriminate.
-      cbn in H. destruct (oeqb r None); [|discriminate]. inversion H; subst; clear H.
-      pose proof (skipn_nth_cons2 _ _ _ _ Nb) as Hr.
-      destruct I as [Ind Ie Ic It]. unfold ids, batch_rest in *. rewrite Dp in *. rewrite Hr in *.
-      constructor; unfold ids, batch_rest; cbn; auto.
-      + unfold sids. rewrite map_app. cbn. rewrite <- app_assoc. cbn. exact Ind.
-      + intros e Hin. apply in_app_or in Hin. destruct Hin as [Hin|[<-|[]]]; [auto|].
-        cbn. apply Ic. left. reflexivity.
-      + intros s' a' c' Hin. apply Ic. right. exact Hin.
+      unfold apply_subscriber in H. destruct ad.
+      + destruct (oeqb r None); [|discriminate]. inversion H; subst; clear H.
+        eapply winv_apply_append; eassumption.
+      + destruct (replace_first C (mkEntry C s a c) (subscribers C st)) as [[l' r']|] eqn:Rf.
+        * destruct (oeqb r (Some r')); [|discriminate]. inversion H; subst; clear H.
+          destruct (replace_first_spec _ _ _ _ Rf) as (l1 & x & l2 & Hs & -> & _).
+          eapply winv_apply_replace; eassumption.
+        * destruct (oeqb r None); [|discriminate]. inversion H; subst; clear H.
+          eapply winv_apply_append; eassumption.
     - (* LHandle *)
       destruct (a_alive (actors C st a)); [|discriminate].
       destruct (a_started (actors C st a)); [|discriminate]. cbn [andb] in H.
@@ -471,6 +522,49 @@ Section P.
 
   Lemma not_in_ids : forall (st : state) s, WInv st -> decl C st s = None -> ~ In s (ids st).
   Proof. intros st s I D Hin. exact (in_ids_decl st s I Hin D). Qed.
+
+  Definition has (s : N) (l : list entry) : bool :=
+    match index_of C s l with Some _ => true | None => false end.
+
+  Lemma has_in : forall s l, has s l = true <-> In s (sids l).
+  Proof.
+    intros s l. unfold has. destruct (index_of C s l) as [i|] eqn:E.
+    - split; [intros _; eapply index_of_some_in; eassumption|reflexivity].
+    - split; [discriminate|]. intros Hin. destruct (index_of C s l) eqn:E2; [discriminate|].
+      exfalso. revert E2. clear E. induction l as [|e t IH]; [destruct Hin|].
+      cbn in *. destruct (N.eqb (e_sid C e) s) eqn:Es; [discriminate|].
+      destruct Hin as [Hin|Hin]; [apply N.eqb_neq in Es; contradiction|].
+      destruct (index_of C s t); [discriminate|]. intros _. apply IH; auto.
+  Qed.
+
+  Lemma backlog_before_apply : forall (st : state) b s0 a0 c0 s,
+    dp C st = DApply b -> nth_error (batch C st) b = Some (SetSub s0 a0 c0) ->
+    backlog C st s =
+    if has s (subscribers C st)
+    then Some (datas C (skipn (S b) (batch C st)) ++ datas C (queue C st))
+    else after_set C s (SetSub s0 a0 c0 :: skipn (S b) (batch C st) ++ queue C st).
+  Proof.
+    intros st b s0 a0 c0 s Dp Nb. pose proof (skipn_nth_cons2 _ _ _ _ Nb) as Hr.
+    unfold backlog, has, rem_batch, batch_rest. rewrite Dp, Hr.
+    destruct (index_of C s (subscribers C st)); [reflexivity|].
+    cbn [app]. destruct (after_set C s (SetSub s0 a0 c0 :: skipn (S b) (batch C st) ++ queue C st)); reflexivity.
+  Qed.
+
+  Lemma backlog_after_apply : forall (st : state) b l' s,
+    backlog C (mkSt C (queue C st) (batch C st) (DSeg (S b)) l' (actors C st) (decl C st)) s =
+    if has s l'
+    then Some (datas C (skipn (S b) (batch C st)) ++ datas C (queue C st))
+    else after_set C s (skipn (S b) (batch C st) ++ queue C st).
+  Proof.
+    intros st b l' s. unfold backlog, has, rem_batch, batch_rest. cbn [subscribers queue dp batch].
+    destruct (index_of C s l'); [reflexivity|].
+    destruct (after_set C s (skipn (S b) (batch C st) ++ queue C st)); reflexivity.
+  Qed.
+
+  Lemma has_false : forall s l, ~ In s (sids l) -> has s l = false.
+  Proof. intros s l H. destruct (has s l) eqn:E; [|reflexivity]. apply has_in in E. contradiction. Qed.
+  Lemma has_true : forall s l, In s (sids l) -> has s l = true.
+  Proof. intros s l H. apply has_in. exact H. Qed.
 
   Lemma sim_step : forall s a c (st st' : state) l t,
     WInv st -> okfor s a c st (l :: t) -> step st l = Some st' ->
@@ -638,16 +732,88 @@ Section P.
       cbn [V2.step] in H.
       destruct (dp C st) as [|x|x y z|x y z w|b] eqn:Dp; try discriminate.
       destruct (nth_error (batch C st) b) as [[m|s0 a0 c0]|] eqn:Nb; try discriminate.
-      cbn in H. destruct r as [r|]; [discriminate|]. cbn in H. inversion H; subst; clear H.
       pose proof (skipn_nth_cons2 _ _ _ _ Nb) as Hr.
-      pose proof (w_nd _ I) as Hnd. unfold ids, batch_rest in Hnd. rewrite Dp, Hr in Hnd. cbn in Hnd.
-      split; [|unfold okfor in *; cbn [decl]; exact Ok].
-      cbn [proj oeqb crun]. f_equal. symmetry. apply absv_eq; try reflexivity.
-      unfold backlog. cbn [subscribers queue]. rewrite index_of_app_one. cbn [e_sid].
-      unfold rem_batch, batch_rest. cbn [dp batch]. rewrite Dp, Hr. cbn [datas].
-      destruct (index_of C s (subscribers C st)) as [i|] eqn:Ei; [reflexivity|].
-      cbn [app after_set]. destruct (N.eqb s0 s) eqn:E0; [|reflexivity].
-      rewrite datas_app. reflexivity.
+      pose proof (w_nd _ I) as Hnd. unfold ids, batch_rest in Hnd. rewrite Dp, Hr in Hnd. cbn [set_ids] in Hnd.
+      assert (Hs0 : ~ In s0 (sids (subscribers C st))).
+      { intros Hin. clear - Hnd Hin. induction (sids (subscribers C st)) as [|y l IH]; [destruct Hin|].
+        cbn in Hnd. inversion Hnd; subst. destruct Hin as [->|Hin].
+        - apply H1. apply in_or_app. right. left. reflexivity.
+        - apply IH; assumption. }
+      assert (Happ : crun0 (cv c) (absv C s a st) [] =
+                     Some (absv C s a (mkSt C (queue C st) (batch C st) (DSeg (S b))
+                                         (subscribers C st ++ [mkEntry C s0 a0 c0]) (actors C st) (decl C st)))).
+      { cbn [crun]. f_equal. symmetry. apply absv_eq; try reflexivity.
+        rewrite (backlog_before_apply st b s0 a0 c0 s Dp Nb), backlog_after_apply.
+        destruct (N.eqb s0 s) eqn:E0.
+        - apply N.eqb_eq in E0. subst s0. rewrite (has_false _ _ Hs0), has_true.
+          + cbn [after_set]. rewrite N.eqb_refl, datas_app. reflexivity.
+          + unfold sids. rewrite map_app. apply in_or_app. right. left. reflexivity.
+        - assert (Hh : has s (subscribers C st ++ [mkEntry C s0 a0 c0]) = has s (subscribers C st)).
+          { unfold has. rewrite index_of_app_one. cbn [e_sid]. rewrite E0.
+            destruct (index_of C s (subscribers C st)); reflexivity. }
+          rewrite Hh. destruct (has s (subscribers C st)); [reflexivity|].
+          cbn [after_set]. rewrite E0. reflexivity. }
+      unfold apply_subscriber in H. destruct ad.
+      + destruct r as [r|]; [discriminate|]. cbn in H. inversion H; subst; clear H.
+        split; [|unfold okfor in *; cbn [decl]; exact Ok]. exact Happ.
+      + destruct (replace_first C (mkEntry C s0 a0 c0) (subscribers C st)) as [[l' r']|] eqn:Rf.
+        2:{ destruct r as [r|]; [discriminate|]. cbn in H. inversion H; subst; clear H.
+            split; [|unfold okfor in *; cbn [decl]; exact Ok]. exact Happ. }
+        destruct r as [r|]; [|discriminate]. cbn [oeqb] in H.
+        destruct (N.eqb r r') eqn:Err; [|discriminate]. apply N.eqb_eq in Err. subst r'.
+        inversion H; subst; clear H.
+        split; [|unfold okfor in *; cbn [decl]; exact Ok].
+        destruct (replace_first_spec _ _ _ _ Rf) as (l1 & x & l2 & Hs & -> & Hrx).
+        assert (Hr_in : In r (sids (subscribers C st))).
+        { rewrite Hs. unfold sids. rewrite map_app. apply in_or_app. right. left. symmetry. exact Hrx. }
+        assert (Hne : r <> s0) by (intros ->; contradiction).
+        assert (Hnds : NoDup (sids (subscribers C st))).
+        { eapply sublist_NoDup; [apply sublist_app_r|exact Hnd]. }
+        assert (Hr_rest : ~ In r (set_ids (skipn (S b) (batch C st) ++ queue C st))).
+        { rewrite set_ids_app. intros Hin. clear - Hnd Hin Hr_in.
+          induction (sids (subscribers C st)) as [|y l IH]; [destruct Hr_in|].
+          cbn in Hnd. inversion Hnd; subst. destruct Hr_in as [->|Hr_in].
+          - apply H1. apply in_or_app. right. right. exact Hin.
+          - apply IH; assumption. }
+        assert (Hsplit : sids (subscribers C st) = sids l1 ++ r :: sids l2).
+        { rewrite Hs. unfold sids. rewrite map_app. cbn. rewrite Hrx. reflexivity. }
+        assert (Hsplit' : sids (l1 ++ mkEntry C s0 a0 c0 :: l2) = sids l1 ++ s0 :: sids l2).
+        { unfold sids. rewrite map_app. reflexivity. }
+        rewrite Hsplit in Hnds. pose proof (NoDup_remove_2 _ _ _ Hnds) as Hr_not.
+        cbn [proj oeqb].
+        rewrite (backlog_before_apply st b s0 a0 c0 s Dp Nb) || idtac.
+        destruct (N.eqb r s) eqn:Ers.
+        * (* s is the replaced subscription: the port drops it *)
+          apply N.eqb_eq in Ers. subst s.
+          assert (Dr : decl C st r <> None).
+          { apply (in_ids_decl st r I). unfold ids. apply in_or_app. left. exact Hr_in. }
+          unfold absv at 1. destruct (decl C st r) as [pr|] eqn:Dd; [|congruence].
+          rewrite (backlog_before_apply st b s0 a0 c0 r Dp Nb), (has_true _ _ Hr_in).
+          cbn [crun cstep c_pc c_backlog c_mbox c_got c_alive].
+          f_equal. unfold absv. cbn [decl actors]. rewrite Dd, backlog_after_apply, has_false.
+          -- rewrite (after_set_none _ _ Hr_rest). reflexivity.
+          -- rewrite Hsplit'. intros Hin. apply in_app_or in Hin. destruct Hin as [Hin|[Hin|Hin]].
+             ++ apply Hr_not. apply in_or_app. left. exact Hin.
+             ++ apply Hne. symmetry. exact Hin.
+             ++ apply Hr_not. apply in_or_app. right. exact Hin.
+        * cbn [crun]. f_equal. symmetry. apply absv_eq; try reflexivity.
+          rewrite (backlog_before_apply st b s0 a0 c0 s Dp Nb), backlog_after_apply.
+          destruct (N.eqb s0 s) eqn:E0.
+          -- apply N.eqb_eq in E0. subst s0. rewrite (has_false _ _ Hs0), has_true.
+             ++ cbn [after_set]. rewrite N.eqb_refl, datas_app. reflexivity.
+             ++ rewrite Hsplit'. apply in_or_app. right. left. reflexivity.
+          -- assert (Hh : has s (l1 ++ mkEntry C s0 a0 c0 :: l2) = has s (subscribers C st)).
+             { apply N.eqb_neq in E0. apply N.eqb_neq in Ers.
+               destruct (has s (subscribers C st)) eqn:Hb.
+               - apply has_true. apply has_in in Hb. rewrite Hsplit in Hb. rewrite Hsplit'.
+                 apply in_app_or in Hb. apply in_or_app. destruct Hb as [Hb|[Hb|Hb]]; [left; exact Hb|contradiction|right; right; exact Hb].
+               - apply has_false. intros Hin. rewrite Hsplit' in Hin.
+                 assert (In s (sids (subscribers C st))).
+                 { rewrite Hsplit. apply in_app_or in Hin. apply in_or_app.
+                   destruct Hin as [Hin|[Hin|Hin]]; [left; exact Hin|contradiction|right; right; exact Hin]. }
+                 apply has_true in H. congruence. }
+             rewrite Hh. destruct (has s (subscribers C st)); [reflexivity|].
+             cbn [after_set]. rewrite E0. reflexivity.
     - (* LHandle *)
       cbn [V2.step] in H.
       destruct (a_alive (actors C st a')) eqn:Al; [|discriminate].
@@ -706,7 +872,7 @@ Section P.
   Proof.
     intros s a c. induction ls as [|l t IH]; intros st st' I Ok H; cbn in H.
     - inversion H; subst. split; [reflexivity|assumption].
-    - destruct (V2.step C cv true st l) as [st1|] eqn:E; [|discriminate].
+    - destruct (V2.step C cv ad st l) as [st1|] eqn:E; [|discriminate].
       destruct (sim_step s a c st st1 l t I Ok E) as [S1 Ok1].
       pose proof (winv_step _ _ _ I E) as I1.
       destruct (IH _ _ I1 Ok1 H) as [S2 I2]. split; [|assumption].
